@@ -38,7 +38,7 @@ Definition enc_cerr (e : cerr) : sexp :=
   | EDefaultExit => L [A 5] | EFromMissing => L [A 6] | EGotoCount => L [A 7] | EMergeSource => L [A 8]
   | EMergeEdges => L [A 9] | EUnterminated => L [A 10] | EWrongTerminator => L [A 11] | EUnexpectedEnd => L [A 12]
   | ECatNameTooLong => L [A 13] | EDupNodeUuid u => L [A 14; enc_str u] | ECrash k => L [A 15; A (crash_code k)]
-  | EInternal => L [A 16] | EOutOfFuel => L [A 17]
+  | EInternal => L [A 16] | EOutOfFuel => L [A 17] | ECatNameTaken => L [A 18]
   end.
 
 (* (120 1 name rows) -> (0 flow) | (1 err)
